@@ -5,6 +5,7 @@
 #include <fcntl.h>
 #include <signal.h>
 #include <sys/mman.h>
+#include <sys/resource.h>
 #include <sys/stat.h>
 #include <sys/wait.h>
 #include <unistd.h>
@@ -622,6 +623,15 @@ static std::string readAll(int fd) {
 
 int main() {
     signal(SIGPIPE, SIG_IGN);
+    {
+        // ASan/-O1 frames of the tree-walking evaluator are several times larger than in the release build:
+        // give the main thread of every job the room a bounded recursion (<= 200 calls) needs
+        struct rlimit rl;
+        if (getrlimit(RLIMIT_STACK, &rl) == 0) {
+            rl.rlim_cur = rl.rlim_max == RLIM_INFINITY ? (rlim_t)2048 * 1024 * 1024 : rl.rlim_max;
+            setrlimit(RLIMIT_STACK, &rl);
+        }
+    }
     vutil::Job j;
     unsigned long seq = 0;
     pid_t me = getpid();
